@@ -668,8 +668,59 @@ def resolution(ctx):
     return n, problems
 
 
+def class_level_resolution(ctx):
+    """Parameters._spec_to_obj on a CLASS B(A) (this is what the metaclass records) for the plain specs 'a' -- a Parameter
+    inherited from A, so its `owner` is A -- and 'b' -- declared on B.
+
+    Specification: both dependencies carry inst=None and cls=B, the class the spec was resolved on: _update_deps groups the
+    dependencies of a method by (instance, class, kind) and installs ONE watcher per group; two groups for one object mean
+    two watchers, i.e. the method runs twice for one update / batch that changes both."""
+    f = ctx.repo.func(P + "Parameters._spec_to_obj")
+    A, B = Obj("class_A", __is_class__=True), Obj("class_B", __is_class__=True)
+    pa, pb = Obj("Parameter_a_declared_on_A", owner=A, name="a"), Obj("Parameter_b_declared_on_B", owner=B, name="b")
+    ns = Obj("namespace_of_B", __cls__=P + "Parameters", self_or_cls=B, self=None, cls=B, __contains__=["a", "b"], __getitem__={"a": pa, "b": pb}, __iter__=["a", "b"])
+    B.attrs["param"] = ns
+    got = {}
+    for spec in ("a", "b", "a:bounds"):
+        def hook(fn, args, kwargs):
+            if fn == "_parse_dependency_spec" and len(args) == 1:
+                nm, _, what = args[0].partition(":")
+                return (None, nm, what or "value")
+            if fn == "isinstance" and len(args) == 2:
+                if isinstance(args[0], str):
+                    return False
+                if args[1] == "<type type>":
+                    return isinstance(args[0], Obj) and bool(args[0].attrs.get("__is_class__"))
+                return False
+            if fn == "hasattr" and len(args) == 2:
+                return isinstance(args[0], Obj) and args[1] in args[0].attrs
+            if fn == "type" and len(args) == 1:
+                return Obj("metaclass")
+            return NotImplemented
+        it = Interp(ctx.hier, dyn=P + "Parameters", inline=lambda m: m == "_spec_to_obj", call_hook=hook, strict_self_calls=True)
+        try:
+            outs = it.run_all(f, {"self_": ns, "spec": spec, "dynamic": False, "intermediate": True})
+        except Unsupported as e:
+            raise AnalysisError("depends model: absint cannot interpret Parameters._spec_to_obj at class level: %s" % e)
+        if len(outs) != 1 or outs[0].imprecise or outs[0].kind != "return" or not (isinstance(outs[0].value, tuple) and isinstance(outs[0].value[0], list) and len(outs[0].value[0]) == 1):
+            raise AnalysisError("depends model: Parameters._spec_to_obj is not interpretable precisely at class level on %r (%s)" % (spec, outs[0].notes[:2] if outs else "no outcome"))
+        kw = getattr(outs[0].value[0][0], "kwargs", None)
+        if not isinstance(kw, dict):
+            raise AnalysisError("depends model: _spec_to_obj returned something that is not a keyword-built PInfo")
+        got[spec] = kw
+    problems = []
+    for spec, kw in got.items():
+        if kw.get("inst") is not None or kw.get("cls") is not B:
+            problems.append("on class B(A) the dependency %r resolves to (inst=%s, cls=%s), specification (inst=None, cls=B -- the class it was resolved on, also for a Parameter inherited from A): "
+                            "with another class in the group key a method depending on an inherited and a locally declared parameter gets two watchers and runs twice for one update of both" % (
+                                spec, getattr(kw.get("inst"), "name", kw.get("inst")), getattr(kw.get("cls"), "name", kw.get("cls"))))
+    return len(got), problems
+
+
 def report_resolution(ctx, rule):
     n, problems = resolution(ctx)
+    n2, p2 = class_level_resolution(ctx)
+    n, problems = n + n2, problems + p2
     f = ctx.repo.func(P + "Parameters._spec_to_obj")
     ctx.abstract_cases += n
     if problems:
